@@ -31,6 +31,10 @@ Case format
      {"op":"srcSet","s":s,"i":i,"v":n}           S<s>.v<i> = n
      {"op":"lock","t":t,"p":p}                   t.param.p<p>.constant = True   (the instance's own Parameter copy)
      {"op":"trigger","t":t}                      t.e_ = True   (the Event fires its watchers and resets itself; a no-op for the model)
+     {"op":"setClsX","t":t,"which":"nan"|"gen"}  a REJECTED class-level assignment to one of two extra Number parameters every
+                                                 target class has: `T.nan_ = 'bad'` (nan_: default float('nan')) / `T.gen_ = -1`
+                                                 (gen_: bounds (0, None), class default a callable generator); for the model an
+                                                 `update` naming an unknown key: ValueError, nothing changes
   rhs  : {"k":"atom","a":atom} | {"k":"cont","items":[atom, ...]}        a tuple of atoms
        | {"k":"cont2","rows":[[atom, ...], ...]}                         a tuple of tuples of atoms (for kind "any")
        | {"k":"gen"}   the case's shared number generator (a plain callable, i.e. a Dynamic value; it is also the
@@ -210,6 +214,10 @@ class Runner:
                     ns[f'p{i}'] = Range_(default=tuple(pd['default']), **kw)
                 names.append(f'p{i}')
             ns['e_'] = param.Event()
+            # two parameters outside the model whose class-level state a rejected class-level assignment must not touch:
+            # a default that is not equal to itself, and a callable (generator) default, which sets `instantiate`
+            ns['nan_'] = param.Number(default=float('nan'))
+            ns['gen_'] = param.Number(default=(lambda: 1), bounds=(0, None))
             if case.get('sub'):
                 base = type(f'TB{t}', (param.Parameterized,), ns)
                 self.tcls.append(type(f'T{t}', (base,), {}))
@@ -380,6 +388,8 @@ class Runner:
             flags += [int(clsp[n] is inspect.getattr_static(self.tcls[t], n)) for n in self.tnames[t]]
             # a later watcher of the Event always read what its event announced
             flags += [self.late_read_ok[t]]
+            # the class itself holds nan_ only if it declared it; gen_ (callable default) is instantiated per instance
+            flags += [int('nan_' in self.tcls[t].__dict__), int(bool(clsp['gen_'].instantiate))]
             rows.append([int(bool(obj.e_)), self.MODES.get(ev._mode, 9), self.MODES.get(clsev._mode, 9)] + flags +
                         sorted(self.tnames[t].index(n) if n in self.tnames[t] else 99 for n in obj._param__private.syncing))
         last = self.wit.param.inspect_value('a')
@@ -398,6 +408,12 @@ class Runner:
             raise NotImplementedError
         if o in ('update', 'ctxEnter') and not all(key_supported(tds[op['t']], p, r) for p, r in op['kvs']):
             raise NotImplementedError
+        if o == 'setClsX':
+            if op['which'] == 'nan':
+                setattr(self.tcls[op['t']], 'nan_', 'bad')
+            else:
+                setattr(self.tcls[op['t']], 'gen_', -1)
+            return
         if o == 'trigger':
             self.tgts[op['t']].e_ = True
             return
@@ -491,7 +507,7 @@ def _run(case, ops):
         param.Dynamic.time_dependent = saved
 
 
-ASSIGN_OPS = ('set', 'setCls', 'update', 'ctxEnter')
+ASSIGN_OPS = ('set', 'setCls', 'update', 'ctxEnter', 'setClsX')
 
 
 def _atom_skips(a, src):
@@ -711,7 +727,9 @@ def gen_history(rng, targets, src, n_ops, nsrc, nsp, p_bad_src=0.06, locked=None
         linkable = [i for i, pd in enumerate(pds) if pd['allow_refs'] and not pd['readonly'] and not pd['constant']
                     and (t, i) not in locked]
         r = rng.random()
-        if r < 0.03:
+        if r < 0.015:
+            ops.append({'op': 'setClsX', 't': t, 'which': rng.choice(['nan', 'gen'])})
+        elif r < 0.03:
             ops.append({'op': 'trigger', 't': t})
         elif r < 0.06 and any(lockable(pd) for pd in pds):
             p = rng.choice([i for i, pd in enumerate(pds) if lockable(pd)])
